@@ -12,7 +12,10 @@ ALGS = ["kmeans", "kmeans32", "dbscan", "dbscan32", "optics", "gmm", "enet", "mt
         "hier", "countvec"]
 ALGSET = vlib.tla_set(ALGS)
 # design model: every builder, every history of up to MaxCalls setter calls over the boundary grid
-MODEL = {"quick": dict(AlgSet=ALGSET, MaxCalls=1), "thorough": dict(AlgSet=ALGSET, MaxCalls=2)}
+HEAVY = ["svc", "svr", "countvec"]      # setters with 2-3 arguments: their two-call histories dominate the state space
+MODEL = {"quick": [dict(AlgSet=ALGSET, MaxCalls=1)],
+         "thorough": [dict(AlgSet=vlib.tla_set([a for a in ALGS if a not in HEAVY]), MaxCalls=2),
+                      dict(AlgSet=vlib.tla_set(HEAVY), MaxCalls=1)]}
 # cases: Level 2 = all single and pairwise deviations (+ same setter twice, both orders of overlapping setters),
 #        Level 3 = + triples; MaxFull = full grid for builders whose grid has at most that many points
 GEN = {"quick": dict(AlgSet=ALGSET, MaxCalls=0, Level=2, MaxFull=0),
@@ -52,7 +55,8 @@ def random_programs(ctx, cases, count):
 
 def run(ctx):
     binp = vlib.cargo_build("c04")
-    vlib.tlc_mc(ctx, "Params", {"constants": MODEL[ctx.tier], "invariants": INVS}, coverage_actions=ACTIONS)
+    for consts in MODEL[ctx.tier]:
+        vlib.tlc_mc(ctx, "Params", {"constants": consts, "invariants": INVS}, coverage_actions=ACTIONS)
     cases = vlib.tlc_gen(ctx, "Gen_Params", {"init": "GenInit", "next": "GenNext", "constants": GEN[ctx.tier],
                                             "invariants": ["Emit"]}, xmx="8g")
     ctx.exhaustive = True
